@@ -1,11 +1,13 @@
 #!/bin/bash
-# usage: try_mutant.sh <seeded dir name> <property>...   applies the seeded patch to /repo, runs the checks, reverts
+# usage: try_mutant.sh <seeded dir name> <property>...   applies the seeded patch to a scratch worktree of /repo (never to
+# /repo itself), runs the checks against it (VERIF_REPO), reverts.  The registered commands always use /repo.
 m=$1; shift
-cd /repo && git diff --quiet || { echo "/repo not clean"; exit 3; }
-git apply /verif/seeded/$m/patch.diff || { echo "patch does not apply"; exit 3; }
+wt=${MUT_WT:-/tmp/wtm}
+cd $wt && git checkout -q --detach $(git -C /repo rev-parse HEAD) && git checkout -q -- . || exit 3
+git apply /verif/seeded/$m/patch.diff || { echo "== $m: patch does not apply"; exit 3; }
 cd /verif
 for p in "$@"; do
-  out=$(./check $p --tier ${TIER:-quick} 2>&1); rc=$?
+  out=$(VERIF_REPO=$wt VERIF_EVIDENCE_DIR=/tmp/mut_evidence ./check $p --tier ${TIER:-quick} 2>&1); rc=$?
   echo "== $m vs $p: exit=$rc"; echo "$out" | grep -E "VIOLATION|KNOWN|UNDECIDED|tier=" | cut -c1-260 | head -${LINES_MAX:-6}
 done
-git -C /repo checkout -- .
+git -C $wt checkout -q -- .
